@@ -19,7 +19,7 @@ import sys
 import time
 from fractions import Fraction
 
-VERIF = pathlib.Path('/verif')
+VERIF = pathlib.Path(__file__).resolve().parents[1]
 REPO = pathlib.Path('/repo')
 COQ = VERIF / 'coq'
 WORK = VERIF / '.work'
@@ -267,7 +267,7 @@ class Report:
         self._nrep += 1
         path = REPLAYS / f'{self.prop}-{self.tier}-{self.seed}-{self._nrep}.json'
         replay = dict(replay, property=self.prop, key=key, what=what, seed=self.seed, tier=self.tier,
-                      replay_cmd=f'/verif/bin/check {self.prop} --replay {path}')
+                      replay_cmd=f'{VERIF}/bin/check {self.prop} --replay {path}')
         path.write_text(json.dumps(replay, indent=1, default=str))
         tail = ' no-failing-input-found' if no_input else ''
         print(f'VIOLATION property={self.prop} replay={path} {what}{tail}', flush=True)
@@ -277,7 +277,7 @@ class Report:
         if proof is not None:
             cov['obligations'] = len(proof['theorems'])
             cov['discharged'] = len(proof['theorems']) if proof['ok'] else 0
-            cov['checker_cmd'] = f'make -C /verif/coq && coqc -Q theories Femto theories/Props/{self.prop}.v (Print Assumptions per theorem)'
+            cov['checker_cmd'] = f'make -C {COQ} && coqc -Q theories Femto theories/Props/{self.prop}.v (Print Assumptions per theorem)'
             tb = ['Coq 8.16.1 kernel (coqc; vm_compute used for model evaluation and *_refuted witnesses)',
                   'hand-written Gallina model tied to /repo by the correspondence run of this check',
                   'harness/*.py (generators, canonicalisation, lexer)']
